@@ -72,13 +72,7 @@ func vOneTypePerName(st *variable.InMemoryStorer, names []string) bool {
 }
 
 func vNewRunnerWithStore(st variable.Storer) *DialogueRunner {
-	return &DialogueRunner{
-		dialogue:       &tree.Dialogue{},
-		variableStorer: st,
-		functionStorer: &functionStorer{functionsByID: map[string]YarnSpinnerFunction{}},
-		commandStorer:  newCommandStorer(),
-		visitedNodes:   map[string]int{},
-	}
+	return vRunnerAt(st, &tree.Dialogue{}, "n0")
 }
 
 // VHSetStatement: arbitrary store (v and w absent or of any type), one set/declare of v with an
